@@ -126,16 +126,21 @@ def load(cfg, repo=None, cold=False):
     tag = _tag(repo)
     out = os.path.join(CACHE, 'facts-%s-%s.json' % (tag, cfg))
     stamp = out + '.hash'
-    fresh = (not cold and os.path.exists(out) and os.path.exists(stamp)
-             and open(stamp).read().strip() == h)
-    if not fresh:
-        if os.path.exists(stamp):
-            os.remove(stamp)
-        generate(cfg, repo, cold=cold)
-        with open(stamp, 'w') as fh:
-            fh.write(h)
-    with open(out) as fh:
-        facts = json.load(fh)
+    # the cache file and the cargo target directory of a namespace are shared between processes (several scratch trees
+    # use 'scratch'): serialise check-freshness / regenerate / read under a lock
+    import fcntl
+    with open(os.path.join(CACHE, 'lock-%s-%s' % (tag, cfg)), 'w') as lk:
+        fcntl.flock(lk, fcntl.LOCK_EX)
+        fresh = (not cold and os.path.exists(out) and os.path.exists(stamp)
+                 and open(stamp).read().strip() == h)
+        if not fresh:
+            if os.path.exists(stamp):
+                os.remove(stamp)
+            generate(cfg, repo, cold=cold)
+            with open(stamp, 'w') as fh:
+                fh.write(h)
+        with open(out) as fh:
+            facts = json.load(fh)
     st = facts.get('stats', {})
     if st.get('functions', 0) < FLOOR_FUNCTIONS or st.get('asserts', 0) < FLOOR_ASSERTS:
         raise AnalysisError('facts below floor for %r: %r (floors %d functions, %d asserts)'
